@@ -437,7 +437,70 @@ def rule_reader_base(ctx, R="C08/reader-base"):
             ctx.check(ok, R, "index->mapping", ib.where(bi), "from_process_memory_for_index(i) reads self.mappings[i]", "from_process_memory_for_index reads %s" % show(m)[:100])
 
 
+def rule_identity_per_mapping(ctx, R="C08/identity-per-mapping"):
+    """`each file-backed group ... whose debug record holds exactly the build id ... found in the file`: what identifies a module is read
+    for THAT mapping, every time.  In mappings::write every record pushed to the module list is the fresh result of fill_raw_module
+    (its own name string and CodeView record, never a patched copy of another record), and for a target mapping the identifier and the
+    SONAME handed to fill_raw_module bottom out, on every alternative, in from_process_memory_for_index(dumper, i) for the same i as
+    the mapping handed over (the file fallback lives in that call's or_else closure and names mappings[i] too).  A memo keyed by path
+    (and offset) is not an identity: a library replaced on disk while mapped has the same key and another image."""
+    b = ctx.body(R, "linux::sections::mappings::write")
+    if b is None:
+        return
+    o = Origin(b)
+    pushes = [(x, o.call_args(x)) for x, t in b.calls(lambda c: c.short == "std::vec::Vec::push")]
+    pushes = [(x, a) for x, a in pushes if "MINIDUMP_MODULE" in (b.locals[b.term(x)["args"][1]["p"]["l"]]["ty"] if b.term(x)["args"][1].get("p") else "")]
+    ctx.floor(R, "module records pushed", len(pushes), 2)
+    for k, (x, a) in enumerate(pushes):
+        v = strip(a[1])
+        while v[0] in ("okval",) and len(v) > 1:
+            v = strip(v[1])
+        ok = all((lambda w: w[0] == "call" and w[1].endswith("mappings::fill_raw_module"))(_peel_ok(alt)) for alt in alts(v))
+        ctx.check(ok, R, ("record-fresh", k + 1), b.where(x), "the record pushed is the result of fill_raw_module for this entry", "a module record is pushed that fill_raw_module did not just produce (%s): it shares its name string and CodeView record with another module" % show(v)[:100])
+    calls = [(x, o.call_args(x)) for x, t in b.calls(lambda c: (c.short or "").endswith("mappings::fill_raw_module"))]
+    n = 0
+    for x, a in calls:
+        m = strip(a[1])
+        if not (m[0] == "call" and m[1].endswith("Index<I>>::index") and strip(m[2][0]) == ("field", ("param", 3), "mappings")):
+            continue
+        n += 1
+        idx = nosite(strip(m[2][1]))
+        for nm, e, adapters in (("identifier", a[2], ("unwrap_or_else", "or_else", "unwrap_or_default", "unwrap_or")), ("soname", a[3], ("map", "ok", "and_then"))):
+            bad = []
+            for alt in alts(e):
+                w = strip(alt)
+                for _ in range(12):
+                    if w[0] in ("field", "okval", "some", "ref", "deref") and len(w) > 1 and isinstance(w[1], tuple):
+                        w = strip(w[1])
+                    elif w[0] == "call" and w[1].split("::")[-1] in adapters and w[2]:
+                        w = strip(w[2][0])
+                    else:
+                        break
+                good = w[0] == "call" and w[1].endswith("from_process_memory_for_index") and strip(w[2][0]) == ("param", 3) and nosite(strip(w[2][1])) == idx
+                if not good:
+                    bad.append(show(w)[:80])
+            ctx.check(not bad, R, ("source", nm), b.where(x), "the %s handed to fill_raw_module is read from this very mapping" % nm,
+                      "the %s handed to fill_raw_module can come from %s instead of from_process_memory_for_index for the mapping being listed" % (nm, bad[:2]))
+    ctx.floor(R, "fill_raw_module calls for target mappings", n, 1)
+    # the file fallback inside the or_else closure names the same mapping it failed for
+    for c in ctx.prog.closures_of(b):
+        co = Origin(c)
+        for x, t in c.calls(lambda cc: (cc.short or "").endswith("ReadFromModule>::read_from_file") or (cc.short or "").endswith("::read_from_file")):
+            e = co.call_args(x)[0]
+            names = [q for q in walk(e) if q[0] == "field" and q[2] == "name"]
+            ok = bool(names) and all(any(s_[0] == "call" and s_[1].endswith("Index<I>>::index") for s_ in walk(q)) and all(r_[0] != "param" or r_ == ("param", 1) for r_ in walk(q) if r_[0] == "param") for q in names)
+            ctx.check(ok, R, ("fallback", "same-mapping"), c.where(x), "the file fallback reads the file named by the mapping captured from this iteration", "the file fallback reads %s" % show(e)[:100])
+
+
+def _peel_ok(e):
+    e = strip(e)
+    while e[0] in ("okval",) and len(e) > 1:
+        e = strip(e[1])
+    return e
+
+
 def run(ctx):
+    rule_identity_per_mapping(ctx)
     from rules import c18
     c18.rule_auxv_pairs(ctx, R="C08/auxv-pairs")   # the entry point that selects the main module is the value of the AT_ENTRY pair
     # "base and size are the merged extent" also for an image deleted on disk: names are compared as stored (same instance as C13/compare-as-stored)
@@ -484,3 +547,7 @@ def run(ctx):
     # the stream reaches the caller's file where the directory says, wherever in the destination the dump starts (rules/families.py)
     from rules import families as _famd
     _famd.destination(ctx, "C08")
+    # the small accessors and pass-through wrappers the rules above look through by name return what their names say (rules/accessors.py)
+    from rules import accessors as _acc
+    _acc.rule_accessors(ctx, "C08")
+    _acc.rule_so_name(ctx)
